@@ -31,11 +31,11 @@ pub const SIGNALS: &[(Signal, i32)] = &[
 	(Signal::User2, 12),
 	(Signal::ForceStop, 9),
 	(Signal::Custom(28), 28),
-	(Signal::Custom(34), 34),
-	// unknown numbers fall back to SIGTERM (documented in signal_child)
-	(Signal::Custom(0), 15),
-	(Signal::Custom(999), 15),
+	(Signal::Custom(6), 6),
+	(Signal::Custom(19), 19),
 ];
+// Numbers nix cannot represent (0, real-time signals, out of range) are left out of the domain:
+// the docs say they are "ignored", the code falls back to SIGTERM; the properties do not settle it.
 
 pub fn sig(i: u8) -> (Signal, i32) {
 	SIGNALS[(i as usize) % SIGNALS.len()]
@@ -281,7 +281,7 @@ pub fn run_case(case: &JobCase) -> Trace {
 				sleep(Duration::from_millis(u64::from(st.gap))).await;
 			}
 			let sent_ms = world.now_ms();
-			if st.op == Op::DropHandle {
+			if st.op == Op::DropHandle && job.is_some() {
 				job = None;
 				probe = None;
 				steps.push(StepObs {
